@@ -17,7 +17,7 @@ import (
 
 var c17Labels = []string{"a", "www", "example", "com", "co", "uk", "ck", "kobe", "jp", "city", "github", "io", "blogspot", "local", "1", "2"}
 
-var c17Tails = []string{"", "/", "/p", "/p?q=1", "?q=1", ":8080", ":8080/p", "/p#f", "?q#f", "/p?u=http://other.example/x", ":8080?q=1", "?email=bob@mail.example.net", "/p?u=a@b.example", ":8080?x=y@z.example/w", "/a:b@c.example/", "/РЕКЛАМА.png?q=ÉCOLE", "/\u212aelvin/\u0130", "/новости/НОВОСТИ/index.html"}
+var c17Tails = []string{"", "/", "/p", "/p?q=1", "?q=1", ":8080", ":8080/p", "/p#f", "?q#f", "/p?u=http://other.example/x", ":8080?q=1", "?email=bob@mail.example.net", "/p?u=a@b.example", ":8080?x=y@z.example/w", "/a:b@c.example/", "/РЕКЛАМА.png?q=ÉCOLE", "/\u212aelvin/\u0130", "/новости/НОВОСТИ/index.html", "/XYZ/xyz?Q=AZaz"}
 
 var c17Sources = []string{
 	"example.com", "www.example.com", "a.example.com", "a.b.example.com", "example.co.uk", "www.example.co.uk", "a.co.uk", "co.uk", "uk",
@@ -276,6 +276,9 @@ func init() {
 				u := base + strings.Repeat("Aa", (n-len(base))/2+1)
 				u = u[:n]
 				c17CheckURL(c, u, c17Sources[:3], srcDomains[:3], cnt)
+				// a letter whose lower case has another byte length before the cap
+				kv := base + "\u212a\u023a" + strings.Repeat("Aa", (n-len(base))/2+1)
+				c17CheckURL(c, kv[:n+3], c17Sources[:3], srcDomains[:3], cnt)
 				// the cap falls inside a multi-byte letter
 				mb := base + strings.Repeat("Ж", (n-len(base))/2+2)
 				c17CheckURL(c, mb[:n], c17Sources[:3], srcDomains[:3], cnt)
